@@ -45,6 +45,7 @@ RetainMutOps(I) == [op : {"retain_mut"}, keep : SUBSET I,
                     set : {EmptyFn} \cup {OneFn(k, p) : k \in I, p \in Prios}]
 \* (nb: elements taken from the back - only DoublePriorityQueue's IterMut is double ended)
 IterMutOps == [op : {"iter_mut"}, n : 0..Cardinality(Items), nb : IF Kind = "dpq" THEN 0..2 ELSE {0},
+               bf : IF Kind = "dpq" THEN BOOLEAN ELSE {FALSE},
                set : {EmptyFn} \cup {OneFn(k, p) : k \in Items, p \in Prios}, forget : {FALSE}]
 PairsUpTo2(I) == {<<>>} \cup {<< <<k, p>> >> : k \in I, p \in Prios}
                  \cup {<< <<k1, p1>>, <<k2, p2>> >> : k1 \in I, p1 \in Prios, k2 \in I, p2 \in Prios}
